@@ -72,6 +72,16 @@ fn show_expr(e: &ast::ast::Expr) -> String {
     }
 }
 
+fn show_type(t: &ast::ast::TypeExpr) -> String {
+    use ast::ast::TypeExpr::*;
+    match t {
+        TCon { path } => path.segments.iter().map(|s| s.ident.0.clone()).collect::<Vec<_>>().join("::"),
+        TTuple { typs } => format!("({})", typs.iter().map(show_type).collect::<Vec<_>>().join(", ")),
+        TFunc { params, ret_ty } => format!("(({}) -> {})", params.iter().map(show_type).collect::<Vec<_>>().join(", "), show_type(ret_ty)),
+        other => { let d = format!("{:?}", other); format!("<{}>", d.split(|c: char| !c.is_alphanumeric()).next().unwrap_or("")) }
+    }
+}
+
 fn lower_kinds(a: &Value) -> Value {
     // tokens given by kind names (+ texts): real parser, real tree, real ast::lower
     let table = kind_table(&a[1]);
@@ -132,6 +142,17 @@ fn handle(req: &Value) -> Value {
             let f = astf.unwrap();
             let body = f.toplevels.iter().find_map(|i| if let ast::ast::Item::Fn(f) = i { Some(f.body.clone()) } else { None }).unwrap();
             match body { ast::ast::Expr::EBlock { exprs, .. } => json!(show_expr(exprs.last().unwrap())), e => json!(show_expr(&e)) }
+        }
+        "lower_type_shape" => {
+            // grouping of the type of the first parameter of the first fn, after the real parser and the real ast::lower
+            let r = parser::parse(std::path::Path::new("x.gom"), a[0].as_str().unwrap());
+            let (green, _d) = r.into_parts();
+            let root: parser::syntax::MySyntaxNode = rowan::SyntaxNode::new_root(green);
+            let file = <cst::cst::File as cst::cst::CstNode>::cast(root).unwrap();
+            let (astf, _diags) = ast::lower::lower(file).into_parts();
+            let f = astf.unwrap();
+            let ty = f.toplevels.iter().find_map(|i| if let ast::ast::Item::Fn(f) = i { f.params.first().map(|p| p.1.clone()) } else { None });
+            match ty { Some(t) => json!(show_type(&t)), None => json!({"error": "no parameter"}) }
         }
         "parse_text" => {
             let r = parser::parse(std::path::Path::new("x.gom"), a[0].as_str().unwrap());
